@@ -147,3 +147,25 @@ Section Conv.
 End Conv.
 
 Arguments TConst {F}. Arguments TTraj {F}. Arguments TLeaf {F}. Arguments TSeq {F}. Arguments TSim {F}.
+
+(* ---- joining on the time axis: Compound._concatenate_tempo.
+   A tempo is an envelope of bpm values (a DirectTempo b is the one-point envelope [(0, b, 0)]);
+   `fa`/`fb` tell whether the operand's tempo is a trajectory (FlexTempo). `da` = duration of the
+   first operand (ticks). *)
+Section Join.
+  Variable F : Type.
+  Variable N : Num F.
+  Definition join_tempo (fa fb : bool) (ta : env F) (da : Z) (tb : env F) : res (env F) :=
+    let trivial :=
+      negb fa && negb fb &&
+      match ta, tb with
+      | p :: _, q :: _ => neqb N (pv p) (pv q)
+      | _, _ => false
+      end in
+    if trivial then Ok ta
+    else
+      ta' <- (if da <? pdur F ta then env_cut_out F N ta 0 da
+              else if pdur F ta <? da then env_extend_until F N ta da
+              else Ok ta) ;
+      Ok (ta' ++ tb).
+End Join.
